@@ -210,7 +210,8 @@ type gen struct {
 	recCall    span
 	recCallOff int
 	forcePick  string
-	forceMod   string // "" = random (trivia.go)
+	forceMod   string   // "" = random (trivia.go)
+	extraSetup []string // more variable definitions written after setupLines (hosterr.go)
 }
 
 func newGen(r *lib.RNG) *gen {
@@ -342,6 +343,9 @@ func (g *gen) writeFile(file string) {
 
 func (g *gen) writeSetup(e *emitter, ind string) {
 	for _, l := range setupLines {
+		e.w(ind + l + "\n")
+	}
+	for _, l := range g.extraSetup {
 		e.w(ind + l + "\n")
 	}
 }
